@@ -40,7 +40,9 @@ QXmppElementPrivate::QXmppElementPrivate(const QDomElement &element)
     name = element.tagName();
     QString xmlns = element.namespaceURI();
     QString parentns = element.parentNode().namespaceURI();
-    if (!xmlns.isEmpty() && xmlns != parentns) {
+    // also when the element un-declares its parent's namespace (xmlns=""): dropping that declaration
+    // moved the element into the parent's namespace when it was written again
+    if (xmlns != parentns) {
         attributes.insert(u"xmlns"_s, xmlns);
     }
     QDomNamedNodeMap attrs = element.attributes();
